@@ -39,6 +39,37 @@ def fmt(src, width):
     return b''.join(L.to_lines(writer_cls=lua.LuaFormatterWriter, writer_args={'indentwidth': width}))
 
 
+def fmt_twice_same_args(src, width):
+    """Two formatting passes that share one writer-args dict (what the cart writer does: a size-check pass, then the
+    write pass)."""
+    from pico8.lua import lua
+    L = lua.Lua.from_lines([src], version=8)
+    args = {'indentwidth': width}
+    a = b''.join(L.to_lines(writer_cls=lua.LuaFormatterWriter, writer_args=args))
+    b = b''.join(L.to_lines(writer_cls=lua.LuaFormatterWriter, writer_args=args))
+    return a, b
+
+
+def fmt_cli(src, width, workdir):
+    """`p8tool luafmt --indentwidth N cart.p8` -> code of cart_fmt.p8 (reference reader)."""
+    import os
+    from pico8 import tool
+    from .. import refcodec as rc, carts
+    import random
+    regions, _ = carts.random_regions(random.Random(3), 'zero')
+    p1 = os.path.join(workdir, 'f.p8')
+    pf = os.path.join(workdir, 'f_fmt.p8')
+    if os.path.exists(pf):
+        os.remove(pf)
+    with open(p1, 'wb') as fh:
+        fh.write(rc.write_p8(regions, src, version=8))
+    rcode = tool.main(['-q', 'luafmt', '--indentwidth', str(width), p1])
+    if rcode:
+        raise RuntimeError('p8tool luafmt returned %r' % rcode)
+    with open(pf, 'rb') as fh:
+        return rc.read_p8(fh.read())['code']
+
+
 def depth_oracle(toks, skip=()):
     """-> list of (line_no, expected_depth, leading_space_bytes, first_token) for lines that begin with a code token.
 
@@ -231,6 +262,28 @@ def check_one(ctx, src, width, case, metamorphic_rng=None):
         p = 'not idempotent: second pass differs at byte %d: %r vs %r' % (d, out[max(0, d - 30):d + 20], out2[max(0, d - 30):d + 20])
         ctx.violation(p, case, key=classify(src, out, p))
         return
+    # the canonical output must not depend on the route: shared args dict, command line
+    if metamorphic_rng is not None and metamorphic_rng.random() < 0.25:
+        a2, b2 = fmt_twice_same_args(src, width)
+        ctx.monitor('shared_args_passes')
+        if a2 != out or b2 != out:
+            ctx.violation('two passes sharing one writer-args dict (width %d) give different output than a fresh call: pass 1 %s, pass 2 %s' % (
+                width, 'same' if a2 == out else 'differs', 'same' if b2 == out else 'differs'), case)
+            return
+    if case.get('cli_dir') and b'\r' not in src:
+        want = src if src.endswith(b'\n') else src + b'\n'
+        try:
+            got = fmt_cli(src, width, case['cli_dir'])
+            lib = fmt(want, width)
+        except Exception as e:
+            ctx.violation('p8tool luafmt --indentwidth %d failed: %r' % (width, e), case)
+            return
+        ctx.monitor('cli_outputs_compared')
+        if got != lib and got != lib + b'\n':
+            d = next((i for i in range(min(len(got), len(lib))) if got[i] != lib[i]), min(len(got), len(lib)))
+            ctx.violation('p8tool luafmt --indentwidth %d writes different code than the library formatter at width %d (byte %d: %r vs %r)' % (
+                width, width, d, got[max(0, d - 20):d + 20], lib[max(0, d - 20):d + 20]), case)
+            return
     # (1) metamorphic pair
     if metamorphic_rng is not None:
         src2 = reindent(src, metamorphic_rng)
@@ -256,6 +309,16 @@ def check_one(ctx, src, width, case, metamorphic_rng=None):
 
 
 def run_shard(spec, ctx):
+    import shutil
+    import tempfile
+    cli_dir = tempfile.mkdtemp(prefix='vf-c10-')
+    try:
+        _run_shard(spec, ctx, cli_dir)
+    finally:
+        shutil.rmtree(cli_dir, ignore_errors=True)
+
+
+def _run_shard(spec, ctx, cli_dir):
     rng = ctx.rng
     for i in range(spec['count']):
         depth = rng.choice((1, 2, 3, 3)) if not spec.get('deep') else rng.choice((3, 4, 5))
@@ -277,8 +340,11 @@ def run_shard(spec, ctx):
                 break
         if any(t.kind == 'comment' and t.raw.startswith(b'//') for t in toks):
             ctx.feature('input_has_slashslash_comment')
-        check_one(ctx, src, width, {'src': src, 'width': width, 'style': style, 'scopes': [list(x) for x in p.scopes],
-                                    'nsig': len(p.toks)}, metamorphic_rng=rng)
+        case = {'src': src, 'width': width, 'style': style, 'scopes': [list(x) for x in p.scopes], 'nsig': len(p.toks)}
+        if i % 8 == 0:
+            case['cli_dir'] = cli_dir
+        check_one(ctx, src, width, case, metamorphic_rng=rng)
+        case.pop('cli_dir', None)
         if i == 0:
             ctx.sample({'source': src[:200], 'width': width, 'formatted': fmt(src, width)[:200] if True else None})
 
@@ -305,6 +371,8 @@ def gates(m, tier):
     for k in ('input_has_blank_lines', 'input_has_slashslash_comment', 'style_lines', 'depth_1', 'depth_2', 'depth_3'):
         if f.get(k, 0) < 20:
             missed.append('%s seen %d times' % (k, f.get(k, 0)))
+    if mon.get('cli_outputs_compared', 0) < 50 or mon.get('shared_args_passes', 0) < 100:
+        missed.append('route independence: cli %d, shared args %d' % (mon.get('cli_outputs_compared', 0), mon.get('shared_args_passes', 0)))
     if mon.get('lines_measured', 0) < 3000:
         missed.append('lines measured: %d' % mon.get('lines_measured', 0))
     return missed
